@@ -183,6 +183,20 @@ func genOffenderItem(t *sim.Tape, g *wl.Gen, ns string, i int, o *Outcome) ([]by
 			fifoOnce.Do(func() { syscall.Mkfifo(fifo, 0o600) })
 			key := []string{"tls-cert-file", "tls-key-file", "tls-ca-cert-file"}[t.Draw(3, "cfgpathkey")]
 			path := []string{fifo, dir, filepath.Join(dir, "missing.pem"), "/dev/null"}[t.Draw(4, "cfgpathval")]
+			if path != "/dev/null" {
+				// the scratch directory has another name in every process: "./" segments (and one "/") bring every
+				// spelling of the path to the same length, so that the request has the same bytes count everywhere
+				base := filepath.Base(path)
+				head := strings.TrimSuffix(path, base)
+				for len(head)+len(base) < 160 {
+					if len(head)+len(base) == 159 {
+						head += "/"
+					} else {
+						head += "./"
+					}
+				}
+				path = head + base
+			}
 			o.stat("file_configuration_keys_set_to_special_paths", 1)
 			return resp.Cmd("CONFIG", "SET", key, path), fmt.Sprintf("CONFIG SET %s <%s>", key, filepath.Base(path))
 		}
@@ -411,6 +425,12 @@ func runC07(t *testing.T, tape *sim.Tape, tier string) *Outcome {
 	w := cl.addClient("witness", addr, wItems)
 	w.Lockstep = true
 	w.Chunk = tape.Draw(4, "chunkmode")
+	if tape.Draw(4, "witnesswindow") == 3 {
+		// the witness reads through a tiny receive window: its replies leave the server piece by piece, with other
+		// connections' replies being built and written in between
+		w.S2CWindow = 8 + tape.Draw(64, "witnesswindowsize")
+		o.stat("witness_behind_a_small_window", 1)
+	}
 	w.OnReply = func(i int, v resp.Value) {
 		if i < len(wWant) && !v.Equal(wWant[i]) {
 			o.violate("c07:witness-wrong-reply", "witness request %d %q got %s, expected %s; offenders sent %v", i, wItems[i], v, wWant[i], descs)
